@@ -2,6 +2,7 @@
 use crate::common::*;
 use crate::data::*;
 use crate::est::*;
+use crate::obs::*;
 use crate::out::Out;
 use crate::rng::Rng;
 
@@ -14,6 +15,34 @@ pub fn single_pass<E: Est>(out: &mut Out, data: &[f64], trace: Trace, rng: &mut 
     let accs = observe(out, &e);
     oracle_mom(out, data, &accs, allow);
     out.note(&format!("{}:n<={}", E::NAME, bucket(data.len())));
+}
+
+/// the estimator is polled after every observation (every accessor is read, and compared with the exact values of
+/// the prefix seen so far); with probability 1/3 the next observation is the current running mean itself
+pub fn polled<E: Est>(out: &mut Out, data: &[f64], rng: &mut Rng, allow: &dyn Fn(&str) -> bool) {
+    if !out.next_case() { return; }
+    let mut e = E::new();
+    let mut seen: Vec<f64> = Vec::new();
+    for x in data {
+        let x = if !seen.is_empty() && rng.below(3) == 0 { e.accessors()[0].val.f() } else { *x };
+        let pre = words(&e);
+        e.add(x);
+        seen.push(x);
+        out.t(E::NAME, "add", &pre, &fw(x), &words(&e));
+        let accs = observe(out, &e);
+        oracle_mom(out, &seen, &accs, allow);
+    }
+    out.note(&format!("{}:polled", E::NAME));
+}
+
+/// polled runs over small-integer data (running means are often whole numbers, sums often unchanged by an add)
+pub fn polled_suite<E: Est>(out: &mut Out, tier: &str, rng: &mut Rng, allow: &dyn Fn(&str) -> bool) {
+    polled::<E>(out, &[1.0, 2.0, 3.0, 10.0, 4.0, 4.0, 7.0], rng, allow);
+    for _ in 0..(if tier == "thorough" { 40 } else { 8 }) {
+        let n = 3 + rng.below(12);
+        let d: Vec<f64> = (0..n).map(|_| (rng.below(13) as f64 - 4.0) * *rng.pick(&[1.0, 0.5, 1e6])).collect();
+        polled::<E>(out, &d, rng, allow);
+    }
 }
 
 pub fn bucket(n: usize) -> usize { let mut b = 1; while b < n { b *= 10; } b }
@@ -30,7 +59,7 @@ pub fn merged<E: Est>(out: &mut Out, t: &Tree, trace: Trace, rng: &mut Rng, allo
 fn sizes(tier: &str) -> (usize, Vec<(usize, usize)>) {
     // (datasets per small n, [(n, how many)])
     if tier == "thorough" { (12, vec![(50, 40), (100, 40), (1000, 30), (10_000, 10), (100_000, 3), (1_000_000, 1)]) }
-    else { (3, vec![(50, 8), (100, 8), (1000, 6), (10_000, 2)]) }
+    else { (3, vec![(50, 8), (100, 8), (1000, 6), (10_000, 2), (70_000, 1)]) }
 }
 
 /// C01: Mean and Variance, one observation at a time
@@ -65,6 +94,13 @@ pub fn c01(out: &mut Out, tier: &str, rng: &mut Rng) {
             single_pass::<average::Mean>(out, &d, Trace::Sparse, rng, &allow_all);
             single_pass::<average::Variance>(out, &d, Trace::Sparse, rng, &allow_all);
         }
+    }
+    polled_suite::<average::Mean>(out, tier, rng, &allow_all);
+    polled_suite::<average::Variance>(out, tier, rng, &allow_all);
+    // `add` at counts that no add loop reaches (beyond 2^32 and 2^53; the state is built by self-merges)
+    for (d, x) in HUGE_BASES {
+        huge_counts::<average::Mean>(out, d, x);
+        huge_counts::<average::Variance>(out, d, x);
     }
 }
 
@@ -136,6 +172,23 @@ pub fn c02(out: &mut Out, tier: &str, rng: &mut Rng) {
             merged::<average::Variance>(out, &t, Trace::None, rng, &allow_all);
         }
     }
+    // lopsided merges (one side thousands of times longer than the other), counts beyond 2^32 and 2^53
+    for t in lopsided_trees(rng, tier != "thorough") {
+        merged::<average::Mean>(out, &t, Trace::None, rng, &allow_all);
+        merged::<average::Variance>(out, &t, Trace::None, rng, &allow_all);
+        merged::<average::Skewness>(out, &t, Trace::None, rng, &allow_all);
+        merged::<average::Kurtosis>(out, &t, Trace::None, rng, &allow_all);
+        merged::<average::Moments4>(out, &t, Trace::None, rng, &allow_all);
+        merged::<M6>(out, &t, Trace::None, rng, &allow_all);
+    }
+    for (d, x) in HUGE_BASES {
+        huge_counts::<average::Mean>(out, d, x);
+        huge_counts::<average::Variance>(out, d, x);
+        huge_counts::<average::Skewness>(out, d, x);
+        huge_counts::<average::Kurtosis>(out, d, x);
+        huge_counts::<average::Moments4>(out, d, x);
+        huge_counts::<M6>(out, d, x);
+    }
     sampled_trees::<average::Mean>(out, tier, rng, &allow_all, -25.0, 25.0);
     sampled_trees::<average::Variance>(out, tier, rng, &allow_all, -25.0, 25.0);
     sampled_trees::<average::Skewness>(out, tier, rng, &allow_all, -25.0, 25.0);
@@ -182,6 +235,13 @@ pub fn c03(out: &mut Out, tier: &str, rng: &mut Rng) {
             single_pass::<average::Kurtosis>(out, &d, Trace::Sparse, rng, &allow_all);
         }
     }
+    polled_suite::<average::Skewness>(out, tier, rng, &allow_all);
+    polled_suite::<average::Kurtosis>(out, tier, rng, &allow_all);
+    // `add` and the accessors at counts that no add loop reaches (beyond 2^32 and 2^53)
+    for (d, x) in HUGE_BASES {
+        huge_counts::<average::Skewness>(out, d, x);
+        huge_counts::<average::Kurtosis>(out, d, x);
+    }
 }
 
 fn c04_for<E: Est>(out: &mut Out, tier: &str, rng: &mut Rng) {
@@ -225,6 +285,13 @@ pub fn c04(out: &mut Out, tier: &str, rng: &mut Rng) {
     c04_for::<M6>(out, tier, rng);
     c04_for::<M8>(out, tier, rng);
     c04_for::<M10>(out, tier, rng);
+    polled_suite::<average::Moments4>(out, tier, rng, &allow_all);
+    polled_suite::<M6>(out, tier, rng, &allow_all);
+    for (d, x) in HUGE_BASES {
+        huge_counts::<average::Moments4>(out, d, x);
+        huge_counts::<M5>(out, d, x);
+        huge_counts::<M8>(out, d, x);
+    }
     // same data through Kurtosis and Moments4: both must sit inside the envelope of the same exact values
     for _ in 0..(if tier == "thorough" { 60 } else { 12 }) {
         let n = 2 + rng.below(200);
@@ -265,13 +332,34 @@ pub fn c10(out: &mut Out, tier: &str, rng: &mut Rng) {
     }
     // WeightedMeanWithError: sample variance of the unweighted observations, zero weights anywhere
     for n in 1..=9usize {
-        for zp in 0..5 {
+        for zp in 0..crate::props_pair::WEIGHT_PATTERNS {
             let (xs, _) = dataset_in(rng, n, 1e6, -20.0, 20.0, C03_FAMS);
             let ws = crate::props_pair::weights(rng, n, zp);
             let data: Vec<(f64, f64)> = xs.iter().cloned().zip(ws.iter().cloned()).collect();
-            crate::props_pair::weighted_case::<average::WeightedMeanWithError>(out, &crate::props_pair::PTree::Leaf(data), Trace::None, rng);
+            crate::props_pair::weighted_case::<average::WeightedMeanWithError>(out, &crate::props_pair::PTree::Leaf(data.clone()), Trace::None, rng);
+            // the same through every two- and three-chunk merge (a chunk may consist of zero-weight observations only)
+            if n <= 6 {
+                for k in 2..=3 {
+                    for cuts in compositions(n, k) {
+                        for t in crate::props_pair::all_ptrees(&crate::props_pair::pchunks(&data, &cuts)) {
+                            crate::props_pair::weighted_case::<average::WeightedMeanWithError>(out, &t, Trace::None, rng);
+                        }
+                    }
+                }
+            }
         }
     }
+    polled_suite::<average::Variance>(out, tier, rng, &allow);
+    polled_suite::<average::Moments4>(out, tier, rng, &allow);
+    // counts beyond 2^32 and 2^53 (reached by merging): the bias corrections use n as a float
+    for (d, x) in HUGE_BASES {
+        huge_counts::<average::Variance>(out, d, x);
+        huge_counts::<average::Skewness>(out, d, x);
+        huge_counts::<average::Kurtosis>(out, d, x);
+        huge_counts::<average::Moments4>(out, d, x);
+        huge_counts::<M5>(out, d, x);
+    }
+    for (d, x) in crate::props_pair::PHUGE_BASES { crate::props_pair::phuge_counts::<average::WeightedMeanWithError>(out, d, x); }
     // the witness of the repaired defect
     for d in [vec![1.0, 2.0, 3.0, 10.0], vec![-1.0, -2.0, -3.0, -10.0]] {
         single_pass::<average::Moments4>(out, &d, Trace::All, rng, &allow);
